@@ -779,7 +779,7 @@ fn build_base(r: &str, u: &str, k: &str, t: &str, w: &str, fc: &str, ff: &str) -
     "two" => {
       rewriters.push(json!({"id": "rw1", "rule": {"pattern": "$X", "kind": "identifier"},
         "transform": {"XU": {"convert": {"source": "$X", "toCase": "upperCase"}}}, "fix": format!("<$XU of {primary}>")}));
-      rewriters.push(json!({"id": "rw2", "utils": {"rw-num": {"kind": "number"}}, "rule": {"matches": "rw-num"}, "fix": {"template": "#"}}));
+      rewriters.push(json!({"id": "rw2", "utils": {"rw-num": {"kind": "number", "matches": "rw-small"}, "rw-small": {"regex": "^[0-9]+$"}}, "rule": {"matches": "rw-num"}, "fix": {"template": "#"}}));
       transform.insert("R1".into(), json!({"rewrite": {"rewriters": ["rw1", "rw2"], "source": primary}}));
       tvars.push("R1");
     }
